@@ -1,4 +1,9 @@
 
+(** val implb : bool -> bool -> bool **)
+
+let implb b1 b2 =
+  if b1 then b2 else true
+
 (** val negb : bool -> bool **)
 
 let negb = function
@@ -8,6 +13,12 @@ let negb = function
 type nat =
 | O
 | S of nat
+
+(** val option_map : ('a1 -> 'a2) -> 'a1 option -> 'a2 option **)
+
+let option_map f = function
+| Some a -> Some (f a)
+| None -> None
 
 (** val fst : ('a1 * 'a2) -> 'a1 **)
 
